@@ -15,6 +15,13 @@ def run(tier, seed):
     for c_ in zmat_probes(rng):
         if c_['spec']['family'].startswith('probe-taper-grounded') and c_['spec']['media'] is not None:
             chk.notes.setdefault('failing_specs', []).append(json.loads(json.dumps(c_['spec'])))
+    # the weight 2 of grounded excitations (rhs_entry) and the far-field scalars the theorems use are evaluated against the real
+    # code here too: stages lin and ff
+    import stage_lin, stage_ff
+    out_, errs_ = stage_lin.run_stage(chk, rng, 16 if q else 600)
+    for r_ in errs_: report_error(chk, 'lin', r_)
+    good_, errs_ = stage_ff.run_stage(chk, rng, 16 if q else 600, grounds=('ideal',))
+    for r_ in errs_: report_error(chk, 'ff', r_)
     nor = 24 if (q and not chk.broken) else (64 if q else 1600)
     run_oracle(chk, rng, nor, 'zor.c03', 'c03-oracle', ('ideal',), families=fams)
     return chk.finish()
